@@ -98,11 +98,20 @@ def run(tier, seed, build=True):
         for sname, paths, known in sets:
             wd = os.path.join(work, sname)
             sources = []
+            skip = False
             for p in paths:
-                s = c13.load_source(wd, p, known.get(p))
+                try:
+                    s = c13.load_source(wd, p, known.get(p))
+                except c13.MalformedReference as e:
+                    # decoration itself is broken for this source: C13's verdict; nothing can be reconstructed here
+                    res.coverage.setdefault("sets_skipped_malformed_reference", []).append(sname)
+                    skip = True
+                    break
                 s.is_text = not (p.endswith(".wtmp") or p.endswith(".journal") or p.endswith(".evtx"))
                 s.kind = "fixedstruct" if p.endswith(".wtmp") else "journal" if p.endswith(".journal") else "evtx" if p.endswith(".evtx") else "text"
                 sources.append(s)
+            if skip:
+                continue
             allns = sorted({ns for s in sources for ns, _ in s.msgs})
             # windows: none; partial (from the 2nd instant to the 2nd-last); empty (after everything)
             wins = [(None, None)]
